@@ -35,9 +35,10 @@ const (
 	streamDeep
 	streamRevCycle
 	streamDevKinds
+	streamLex
 )
 
-var streamNames = []string{"i-corpus", "ii-repo-texts", "iii-grammar-mutation", "iv-byte-mutation", "iv-depth-and-error-budget", "v-revision-twins-and-cycles", "vi-deviations-onto-every-kind-and-bracket-paths"}
+var streamNames = []string{"i-corpus", "ii-repo-texts", "iii-grammar-mutation", "iv-byte-mutation", "iv-depth-and-error-budget", "v-revision-twins-and-cycles", "vi-deviations-onto-every-kind-and-bracket-paths", "vii-lexical-neighbourhoods"}
 
 // job is one history to run: explicit, or generated from (stream, idx) and the seed.
 type job struct {
@@ -129,12 +130,21 @@ func makeHistory(f *lib.Flags, pool *seedPool, stream, idx int) (History, []stri
 	}
 	var h History
 	var ops []string
+	// the lexical-neighbourhood operator (lexnbr.go) draws from a generator of its own, so that the
+	// histories of the other operators are the same with and without it
+	r2 := f.Rand(stream*100000000 + 50000000 + idx)
 	switch stream {
 	case streamGrammar:
 		fs, what, o := mutateSet(r, base)
 		ops = o
 		if len(fs) == 0 {
 			fs = base
+		}
+		if r2.Intn(6) == 0 {
+			if d := opLexRawArg(r2, fs); d != "" {
+				what = append(what, d)
+				ops = append(ops, "lexical-neighbourhood")
+			}
 		}
 		h = historyOf(streamNames[stream], origin+": "+strings.Join(what, "; "), fs)
 	case streamBytes:
@@ -146,6 +156,12 @@ func makeHistory(f *lib.Flags, pool *seedPool, stream, idx int) (History, []stri
 		}
 		fs[k].Raw = t
 		ops = o
+		lexWhat := ""
+		if r2.Intn(5) == 0 {
+			fs[k].Raw, lexWhat = lexNeighbourMutate(r2, fs[k].Raw)
+			lexWhat = "; lexical-neighbourhood: " + lexWhat
+			ops = append(ops, "lexical-neighbourhood")
+		}
 		if r.Intn(6) == 0 {
 			// a second damaged file
 			k2 := r.Intn(len(fs))
@@ -154,7 +170,7 @@ func makeHistory(f *lib.Flags, pool *seedPool, stream, idx int) (History, []stri
 				fs[k2].Raw = t2
 			}
 		}
-		h = historyOf(streamNames[stream], origin+": "+strings.Join(o, ","), fs)
+		h = historyOf(streamNames[stream], origin+": "+strings.Join(o, ",")+lexWhat, fs)
 	}
 	if r.Intn(8) == 0 || (hasOp(ops, "include-cycle") && r.Intn(2) == 0) {
 		h.IgnoreCircular = true
@@ -310,7 +326,7 @@ type agg struct {
 	res        *lib.Result
 	distinct   *lib.Distinct
 	nontriv    *lib.Distinct
-	streams    [7]streamStats
+	streams    [8]streamStats
 	ops        map[string]int64
 	whyFuzz    map[string]int64
 	errClass   map[string]int64
@@ -485,6 +501,11 @@ func main() {
 		h := h
 		jobs = append(jobs, job{stream: streamDevKinds, idx: i, h: &h})
 	}
+	// lexical neighbourhoods: every significant character beside runes of every width, ill-formed bytes and NUL, in every lexical context (lexnbr.go)
+	for i, h := range lexNeighbourHistories(f.Thorough(), f.Rand(96000000)) {
+		h := h
+		jobs = append(jobs, job{stream: streamLex, idx: i, h: &h})
+	}
 	// amplifiers: k levels, each referring to the previous one b times, for every kind of reference
 	for i, h := range amplifierHistories() {
 		h := h
@@ -516,17 +537,17 @@ func main() {
 			}
 		}
 		jobs = keep
-	} else if only == "revcycle" || only == "corpus" || only == "devkinds" {
+	} else if only == "revcycle" || only == "corpus" || only == "devkinds" || only == "lex" {
 		var keep []job
 		for _, j := range jobs {
-			if (only == "revcycle" && j.stream == streamRevCycle) || (only == "corpus" && j.stream == streamCorpus) || (only == "devkinds" && j.stream == streamDevKinds) {
+			if (only == "revcycle" && j.stream == streamRevCycle) || (only == "corpus" && j.stream == streamCorpus) || (only == "devkinds" && j.stream == streamDevKinds) || (only == "lex" && j.stream == streamLex) {
 				keep = append(keep, j)
 			}
 		}
 		jobs = keep
 	}
 	if only := os.Getenv("VERIF_C01_ONLY"); strings.HasPrefix(only, "stream") {
-		// debugging aid: stream0 .. stream6
+		// debugging aid: stream0 .. stream7
 		var keep []job
 		for _, j := range jobs {
 			if fmt.Sprintf("stream%d", j.stream) == only {
@@ -688,7 +709,11 @@ func main() {
 		"statements in one deviation, from the module itself and from an importing module, onto every kind of target (container, list, leaf, leaf-list, choice, case, implied case, anydata, anyxml, rpc, written and " +
 		"absent input / output, notification, action, nodes through uses and augment, key / mandatory / defaulted leaves, a missing node, the root); (b) the bracket shapes at every step position (after a step, " +
 		"a step of their own, in front, the whole argument) of the path argument of augment, deviation, uses-augment, refine, leafref path (absolute, relative, in a typedef), key, unique, must, when; the same shapes are in the " +
-		"pool of the path-argument grammar operator. A history that runs into its time bounds is reported by the child itself (phase, accessor call under way, entry, stack of the history's goroutine) and confirmed by a second run alone in a fresh child; " +
+		"pool of the path-argument grammar operator; the deterministic stream vii (lexnbr.go): every character the lexer gives meaning to (/ * + \" ' ; { } \\ space tab CR LF and the pairs // /* */ \\\" CRLF) with, directly before it / directly after it / on both sides, " +
+		"a rune of every UTF-8 length (2, 3, 4 bytes), an invalid byte, truncated sequences and NUL in every tier, plus the boundary runes of each length (U+0080, U+07FF, U+0800, U+FFFD, U+FEFF, U+FFFF, U+2028, U+10000, U+10FFFF), a lone continuation byte, overlong forms, an encoded surrogate, a sequence beyond U+10FFFF, DEL (all in the thorough tier, two chosen by the seed in the quick tier), " +
+		"each in 17 lexical contexts, one small text per history: inside / at the start / at the end of an unquoted argument, inside an unquoted keyword, twice in a path-like unquoted argument, as the first bytes of the text, after its first letter, as the whole text, as its last bytes (after a complete module; inside an open unquoted token), inside a double-quoted and a single-quoted string, " +
+		"directly after a closing quote, inside a block and a line comment, 64 times in one unquoted argument, 200 times and nothing else; the same neighbourhoods are an operator (lexical-neighbourhood, drawn from a generator of its own so that the other operators' histories are unchanged) on one in six grammar histories (the argument of a statement is written as an unquoted token with such a core " +
+		"inside, at its start or its end - the renderer quotes every other argument that needs it) and on one in five byte-level histories (beside a significant character that is in the text, inside a word of the text, at its very start / end, in runs). A history that runs into its time bounds is reported by the child itself (phase, accessor call under way, entry, stack of the history's goroutine) and confirmed by a second run alone in a fresh child; " +
 		"past 24 such histories the rest of the run is skipped and counted (a change that makes a read-back accessor hang makes every history hang). A dead child (stack overflow, out of memory) is confirmed by running the history again alone in a fresh child. evaluations = histories run; distinct_nontrivial = distinct histories (by hash of names, texts, " +
 		"options) in which at least one text passes the generic parser, i.e. reaches the AST builder"
 	res.Write(f.Out)
